@@ -48,11 +48,11 @@ def build(config, tier):
             cl.append(("from_cols_array_2d", "{ let g = <%s>::from_cols_array_2d(&%s).to_cols_array(); %s }" % (N, arr2, alleq([("g[%d]" % i, "a[%d]" % i) for i in range(NN)]))))
         if has(r"pub (const )?fn from_cols_slice\("):
             cl.append(("from_cols_slice", "{ let g = <%s>::from_cols_slice(&a).to_cols_array(); %s }" % (N, alleq([("g[%d]" % i, "a[%d]" % i) for i in range(NN)]))))
-        if has(r"pub fn write_cols_to_slice\("):
+        if has(r"pub (?:const )?fn write_cols_to_slice\("):
             cl.append(("write_cols_to_slice", "{ let mut g = [0 as %s; %d]; m.write_cols_to_slice(&mut g); %s }" % (t, NN, alleq([("g[%d]" % i, "a[%d]" % i) for i in range(NN)]))))
         if has(r"^impl AsRef<\[%s; %d\]> for %s \{" % (t, NN, N)):
             cl.append(("AsRef", "{ let g: &[%s; %d] = m.as_ref(); %s }" % (t, NN, alleq([("g[%d]" % i, "a[%d]" % i) for i in range(NN)]))))
-        if has(r"pub fn col\(&self, index: usize\)"):
+        if has(r"pub (?:const )?fn col\(&self, index: usize\)"):
             cl.append(("col(c)[r]", alleq([("m.col(%d).to_array()[%d]" % (c, r), e("a", r, c)) for c in range(C) for r in range(R)])))
             cl.append(("row(r)[c]", alleq([("m.row(%d).to_array()[%d]" % (r, c), e("a", r, c)) for c in range(C) for r in range(R)])))
         if not M.affine:
@@ -67,7 +67,7 @@ def build(config, tier):
             cl.append(("from_diagonal", "{ let d = <%s>::from_array([%s]); let g = <%s>::from_diagonal(d).to_cols_array(); %s }" % (
                 dm.group(1), ", ".join("a[%d]" % i for i in range(R)), N,
                 alleq([("g[%d]" % (c * R + r), ("a[%d]" % r) if r == c else ("(0.0 as %s)" % t)) for c in range(C) for r in range(R)]))))
-        if has(r"pub fn transpose\(&self\)"):
+        if has(r"pub (?:const )?fn transpose\(&self\)"):
             cl.append(("transpose swaps (r, c) and (c, r) exactly", "{ let g = m.transpose().to_cols_array(); %s }" % alleq([(e("g", c, r), e("a", r, c)) for c in range(C) for r in range(R)])))
         name = "c06_%s_%s_layout" % (config, ln)
         agg = pre + "\n    let ok = " + "\n        && ".join("(%s)" % c_[1] for c_ in cl) + ';\n    check!(ok, "bundle of %d layout clauses");' % len(cl)
@@ -76,7 +76,7 @@ def build(config, tier):
         obs.append(Ob(name, PROP, agg, fn="%s accessors" % N, kind="bundle", solver="cadical", stubs=["sse"], clauses=len(cl), split=name + "__split", cls="bits", desc=desc[:700]))
         obs.append(Ob(name + "__split", PROP, spl, fn="%s accessors" % N, kind="bundle-split", solver="cadical", stubs=["sse"], desc=desc[:300]))
         # index out of range
-        if has(r"pub fn col\(&self, index: usize\)"):
+        if has(r"pub (?:const )?fn col\(&self, index: usize\)"):
             for fnm, call in (("col", "let _r = m.col(i);"), ("row", "let _r = m.row(i);"), ("col_mut", "let mut m = m; let _r = m.col_mut(i);")):
                 obs.append(Ob("c06_%s_%s_%s_oob" % (config, ln, fnm), PROP, "let m = mk::<%s>(); let i: usize = vk::any(); vk::assume(i >= %d); %s" % (N, C if fnm != "row" else R, call),
                               fn="%s::%s" % (N, fnm), kind="panic", panic=True, stubs=["sse"], cls="control", desc="%s::%s(i) with i out of range never returns" % (N, fnm)))
@@ -85,7 +85,7 @@ def build(config, tier):
                 t, NN, N, M.col, C, " && ".join("%s == (if c == %d { %s } else { %s })" % (b(e("g", r, cc)), cc, b("vw[%d]" % r), b(e("a", r, cc))) for cc in range(C) for r in range(R)))
             obs.append(Ob("c06_%s_%s_col_mut" % (config, ln), PROP, body, fn="%s::col_mut" % N, kind="lemma", stubs=["sse"], cls="bits", desc="*m.col_mut(c) = v replaces exactly column c (full-view postcondition)"))
         # minors
-        for mm in re.finditer(r"pub fn (from_mat\da?_minor)\(m: (\w+), i: usize, j: usize\) -> Self", src):
+        for mm in re.finditer(r"pub (?:const )?fn (from_mat\da?_minor)\(m: (\w+), i: usize, j: usize\) -> Self", src):
             fnm, S = mm.group(1), mm.group(2)
             SM = MAT_BY_NAME[S]
             pre2 = "let s = mk::<%s>(); let sa = s.to_cols_array(); let i: usize = vk::any(); let j: usize = vk::any();" % S
@@ -105,13 +105,18 @@ def build(config, tier):
             pass  # M*v == sum_c v[c]*col(c): tree_in obligation of C03 (mul_vec)
         else:
             V = M.col
-            P, Vv = ("transform_point2", "transform_vector2") if R == 2 else (("transform_point3a", "transform_vector3a") if N == "Affine3A" else ("transform_point3", "transform_vector3"))
+            forms = [("transform_point2", "transform_vector2", V)] if R == 2 else ([("transform_point3a", "transform_vector3a", "Vec3A"), ("transform_point3", "transform_vector3", "Vec3")] if N == "Affine3A" else [("transform_point3", "transform_vector3", V)])
             lin = "matrix2" if R == 2 else "matrix3"
-            body = ("let m = mk::<%s>(); let p = mk::<%s>(); let r = m.%s(p); let q = m.%s(p);\n"
-                    "    check!(%s(r.to_array(), (m.%s * p + m.translation).to_array()), \"transform_point = linear*p + translation\");\n"
-                    "    check!(%s(q.to_array(), (m.%s * p).to_array()), \"transform_vector = linear*p\");") % (N, V, P, Vv, leq, lin, leq, lin)
-            obs.append(Ob("c06_%s_%s_transform" % (config, ln), PROP, body, fn="%s::%s/%s" % (N, P, Vv), kind="lemma", solver="cvc5", stubs=["sse"], cls="structure", clauses=2,
-                          desc="%s: transform_point == linear*p + translation, transform_vector == linear*p (translation ignored)" % N))
+            for (P, Vv, VT_) in forms:
+                conv = "" if VT_ == V else "let pc = <%s>::from(p);" % V
+                pe = "p" if VT_ == V else "pc"
+                back = lambda e: e if VT_ == V else "<%s>::from(%s)" % (VT_, e)
+                body = ("let m = mk::<%s>(); let p = mk::<%s>(); %s let r = m.%s(p); let q = m.%s(p);\n"
+                        "    check!(%s(r.to_array(), %s.to_array()), \"transform_point = linear*p + translation\");\n"
+                        "    check!(%s(q.to_array(), %s.to_array()), \"transform_vector = linear*p\");") % (
+                    N, VT_, conv, P, Vv, leq, back("(m.%s * %s + m.translation)" % (lin, pe)), leq, back("(m.%s * %s)" % (lin, pe)))
+                obs.append(Ob("c06_%s_%s_%s" % (config, ln, P), PROP, body, fn="%s::%s/%s" % (N, P, Vv), kind="lemma", solver="cvc5", stubs=["sse"], cls="structure", clauses=2,
+                              desc="%s: %s == linear*p + translation, %s == linear*p (translation ignored)" % (N, P, Vv)))
     if config == "sse2":
         obs.append(Ob("c06_sse2_canary_mat3a_row_major", PROP,
                       'let a: [f32; 9] = vk::any(); let m = Mat3A::from_cols_array(&a); check!(m.col(1).to_array()[0].to_bits() == a[1].to_bits(), "row-major reading");',
